@@ -16,7 +16,7 @@
 (* G(V, EMIN..EMAX); MODE = "cat": the named catalogue.                     *)
 (***************************************************************************)
 EXTENDS Symanzik, Expect, GraphGen, Catalogue, TLC, Json
-CONSTANTS MODE, V, EMIN, EMAX, LMIN, LMAX, WSET, WD, DSET, PK, MSET, NROUT, NSAMP, STRIDE, OFFSET
+CONSTANTS MODE, V, EMIN, EMAX, LMIN, LMAX, WSET, WD, DSET, PK, MSET, NROUT, NSAMP, STRIDE, OFFSET, NSK
 
 VARIABLE st
 PS == (-PK)..PK     \* components of the reference flow (cfg files cannot hold negative integers)
@@ -70,6 +70,17 @@ PickCat ==
         LET c == CatalogueGraphs[i] IN
         /\ Len(c.edges) >= EMIN /\ Len(c.edges) <= EMAX /\ SkelOK(c.edges)
         /\ st' = [k |-> "sk", es |-> c.edges, name |-> c.name]
+\* MODE = "rand": NSK random edge sequences with EMIN..EMAX edges over V labels (frozen in a state first), kept when
+\* they are connected with LMIN..LMAX loops - larger and less regular topologies than the enumeration reaches
+PairSeqR == SetToSeq(Pairs(V))
+PickRandRaw ==
+   /\ MODE = "rand" /\ st.k = "root"
+   /\ \E i \in 1..NSK :
+        st' = [k |-> "rawsk", i |-> i, n |-> RandomElement(EMIN..EMAX),
+               es |-> [e \in 1..EMAX |-> PairSeqR[RandomElement(1..Len(PairSeqR))]]]
+PickRandSk ==
+   /\ st.k = "rawsk"
+   /\ LET es == SubSeq(st.es, 1, st.n) IN SkelOK(es) /\ st' = [k |-> "sk", es |-> es, name |-> "rand"]
 \* decorations: NSAMP random draws per skeleton (masses, reference flow, weights, D); the accepted
 \* ones are emitted.  (Exhaustive enumeration of the decorations is hopeless: 4 million per 3-edge
 \* skeleton; the exhaustive part of the argument is MC_Symanzik / MC_TropBound.)
@@ -112,7 +123,7 @@ Route ==
                              ELSE RandomElement(GL(L)),
                        R |-> IF r = 1 THEN {} ELSE RandomElement(SUBSET Full(g)),
                        c |-> [l \in 1..L |-> [i \in 1..dd |-> IF r = 1 THEN 0 ELSE RandomElement(-1..1)]]]]]
-Next == PickEnum \/ PickCat \/ Draw \/ Decorate \/ Route
+Next == PickEnum \/ PickCat \/ PickRandRaw \/ PickRandSk \/ Draw \/ Decorate \/ Route
 Spec == Init /\ [][Next]_st
 Emit == st.k = "r" => PrintT(<<"REPLAY", ToJson(Line(st.g, st.m, st.p0, st.name, st.rt))>>)
 =============================================================================
